@@ -24,7 +24,11 @@ void raw(const char *fmt, ...)
 }
 #include "break_extract.inc"
 
+#ifdef VERIF_TIER_THOROUGH
+#define BN 14
+#else
 #define BN 10
+#endif
 void h_breakLongStr(void)
 {
     IN_ARR(char, in_s, BN + 1);
